@@ -35,7 +35,7 @@
     history -- have the same offset
       forall f g, In f fs -> In g fs -> f_off f = f_off g -> f = g. *)
 From Coq Require Import List NArith.
-From DTN Require Import Lib.Bytes Lib.Ivl Model.BpReasm Proofs.BpReasmProofs.
+From DTN Require Import Lib.Bytes Lib.Ivl Gen.ReasmSteps Model.BpReasm Proofs.BpReasmProofs Proofs.BpReasmTie.
 Import ListNotations.
 Local Open Scope N_scope.
 
@@ -140,3 +140,26 @@ Theorem C06_damaged_noop :
     fst (run_arr st h) = fst (run st (intact_only h)).
 Proof. exact damaged_noop. Qed.
 Print Assumptions C06_damaged_noop.
+
+(** Translator tie: Gen/ReasmSteps.v is regenerated from Fragment._reassemble
+    (bp/app/fragment.py) on every run by translate/targets/reasmsteps.py (fail closed).
+    The code's decision structure is the model's: two "not mine" returns before any state
+    is touched; the partial reassembly is keyed by the first 3 components of the bundle
+    identity (source, time, sequence -- the model's [ident3]); NO return between the key
+    and the completion test (a fragment that adds nothing still reaches the test); buffer
+    splice then covered-set union; the completion test is "covered = [0, total)"; on
+    completion the entry is removed and exactly one bundle is re-injected with the fragment
+    flag cleared, the first fragment's blocks and the buffer as payload; and the model's
+    slot step [entry_step] / [recv_fragment] is exactly [step_of] over the first-fragment
+    rule the code uses ([rs_first]: only a fragment with offset 0 becomes the first). *)
+Theorem C06_reasm_structure :
+  rs_guards = 2%nat /\ rs_key_parts = 3%nat /\ rs_mid_returns = 0%nat /\
+  rs_splice_then_union = true /\ rs_completion_is_cover_eq = true /\
+  rs_completion_removes_entry = true /\ rs_clears_fragment_flag = true /\
+  rs_blocks_from_first = true /\ rs_payload_from_buffer = true /\
+  rs_reinjections = 1%nat /\ rs_fallthrough_clears_actions = true /\
+  (forall slot f, entry_step slot f = step_of rs_first slot f) /\
+  (forall t f, tbl_get (f_id f) (fst (recv_fragment t f)) = fst (step_of rs_first (tbl_get (f_id f) t) f)) /\
+  (forall t f, snd (recv_fragment t f) = snd (step_of rs_first (tbl_get (f_id f) t) f)).
+Proof. exact reasm_structure. Qed.
+Print Assumptions C06_reasm_structure.
